@@ -504,3 +504,66 @@ PLANS["C05"] = {
         ["sequential histories (the property is about histories); concurrency of the registry is C01/C02/C18"]),
     "floor": floor_counters(model_unreg_stale=100, model_unreg_other=100, model_clear=100),
 }
+
+# ------------------------------------------------------------------------------------------- C03 / C18
+
+
+def c03_steps(tier, seed):
+    q = tier == "quick"
+    st = [
+        native("freeze-sweep", ["w_freeze", "--seed", seed], timeout=900),
+        strace("actions-strace", ["w_strace", "--what", "actions", "--rounds", 5 if q else 200], oracle="c03", timeout=600),
+        native("alloc-watch-registry", ["w_reg", "--mode", "stress", "--phase", "raise", "--rounds", 12 if q else 150, "--round-ms", 80, "--seed", seed + 31]),
+        native("alloc-watch-iterators", ["w_iter", "--instances", 9, "--rounds", 25 if q else 300, "--seed", seed + 32], timeout=900),
+        native("channel-nested-in-handler", ["w_channel", "--mode", "signal", "--histories", 800 if q else 40000, "--seed", seed + 33, "--heap", 0], also=["C08"]),
+    ]
+    return st
+
+
+PLANS["C03"] = {
+    "steps": c03_steps,
+    "evidence": assemble(
+        "fault_enumeration",
+        "(c) freeze sweep, complete in both tiers: operation in {first register, later register, unregister, unregister_signal, "
+        "add_signal, drop of Signals, a wait() pass, pending() on a raw iterator (channel recv), close} x failpoint (every site the "
+        "operation passes) x occurrence 1..2 x {operator thread frozen there while another thread takes one delivery of each of the 9 "
+        "built-in action sets (flags, pipe write, send on a full socket, SignalOnly / WithRawSiginfo / WithOrigin iterators, "
+        "disarmed shutdown, disarmed and armed-ignore-kind default emulation); the delivery raised on the operating thread itself "
+        "at that point}: the delivery must reach DISPATCH_EXIT and pass exactly as many failpoints as without interference; a "
+        "delivery blocked in a system call or burning CPU inside the bracket while the operator is parked is the verdict (stable "
+        "state, read from /proc). (b) strace -f: system calls between '--- SIG ---' and rt_sigreturn per thread must be a subset of "
+        "{write, sendto(MSG_DONTWAIT)}. (a) counting global allocator: no heap operation while a dispatcher is active on the "
+        "thread, under real-signal stress on registry, iterators and channel. distinct = (operation, variant, site#occurrence) "
+        "reached + action sets seen under strace",
+        ["'every instruction boundary' became: every failpoint of every mutator/consumer path deterministically, arbitrary "
+         "instructions statistically (real signals, allocator monitor only)",
+         "an uncontended lock taken in the dispatcher is invisible to strace; the freeze sweep catches it where a frozen thread holds it"],
+        exhaustive=False),
+    "floor": floor_counters(freeze_sites_reached=150, freeze_deliveries_checked=700, strace_brackets=40, dispatches=1000),
+}
+
+
+def c18_steps(tier, seed):
+    q = tier == "quick"
+    return [
+        native("gate-schedule", ["w_live", "--mode", "gate", "--trials", 600 if q else 20000, "--seed", seed], timeout=900),
+        native("free-running", ["w_live", "--mode", "free", "--rounds", 40 if q else 1500, "--round-ms", 50, "--seed", seed], timeout=600 if q else 3000),
+    ]
+
+
+PLANS["C18"] = {
+    "steps": c18_steps,
+    "evidence": assemble(
+        "exploration",
+        "gate schedule: 1..3 deliveries held inside their read section across the writer's swap, writer seen spinning after the "
+        "generation flip, 0..3 later deliveries started (other slot) and held, first wave released: the writer must return within "
+        "its own barrier iterations (bound 20000, observed maximum in coverage.counters) while the second wave is still held, and "
+        "the log must show at most 3 HL_B_SPIN after the last overlapping bracket exited; slots swap roles every trial. "
+        "Free-running: 5 mutators (register, unregister, unregister_signal, concurrent first registrations of fresh signals, "
+        "Signals add_signal/drop, caught forbidden-signal panics) under a delivery stream with periodic quiescent points; a mutator "
+        "blocked in futex or spinning without progress while senders are paused and no bracket is open is a deadlock (stable). "
+        "distinct = (d1 count, d2 count, operation, spins-after) tuples + quiescent points",
+        ["the unbounded fairness quantifier is restated as bounded progress; an infinite stream of overlapping deliveries that keeps "
+         "one slot busy is outside what is checked (the unchanged algorithm admits that starvation)"]),
+    "floor": floor_counters(gate_trials=100, quiescent_points=10, forbidden_panics_caught=10, concurrent_first_registrations=5),
+}
